@@ -20,7 +20,7 @@ EXPLANATION = (
     "same mutex, requests go straight to the vectors only in single-threaded mode (R5). Not decided: anything that "
     "depends on the MPI library's behaviour; the CUDA analogue (headers absent).")
 ASSUMPTIONS = ["MPI_Testsome/MPI_Testany report only completed requests (MPI standard)", "scheduler_base::set_mpi_polling_functions installs the function that the scheduling loop calls"]
-FLOORS = {"C20.R1": 4, "C20.R2": 6, "C20.R3": 3, "C20.R4": 5, "C20.R5": 5}
+FLOORS = {"C20.R1": 4, "C20.R2": 6, "C20.R3": 3, "C20.R4": 5, "C20.R5": 5, "C20.R6": 1}
 
 D_ = "pika::mpi::experimental::detail::"
 MD = D_ + "mpi_data_"
@@ -30,6 +30,8 @@ def run(rep, tier):
     rep.rule("C20.R1", "K8: increment activity + in-flight before publishing a request; --in_flight -> invoke -> decrement activity at every invocation site")
     rep.rule("C20.R2", "K1: requests_/callbacks_ only under polling_vector_mtx_ (or in the single-threaded functions)")
     rep.rule("C20.R3", "K2/K6: callbacks taken/invoked only for reported indices; the request slot is nulled on the same path")
+    rep.rule("C20.R6", "K6 (who may spin): the yield_while handler waits for its request through util::yield_while with timed suspension allowed (it yields the worker between polls; "
+             "a spinning wait lets outstanding requests occupy every worker while the tasks that complete them cannot run)")
     rep.rule("C20.R4", "K7: transform_mpi's dispatch switch covers every handler method; each branch completes / registers exactly once")
     rep.rule("C20.R5", "K2/K8: start/stop polling under the mutex; register_polling waits for in-flight 0 and installs the matching poll function")
 
@@ -215,6 +217,21 @@ def run(rep, tier):
             rep.ok("C20.R4", fn, "case %s: exactly one completion / callback registration (%s) on every path" % (name, sorted(seen)))
         else:
             rep.bad("C20.R4", fn, fn.loc, "case:" + name, "case %s completes / registers %s (expected exactly one of %s per path)" % (name, sorted(seen) or "nothing", handoff.get(name)))
+
+    # ---- R6: a task that waits for its request gives the worker back between polls.  util::yield_while(pred, desc,
+    # allow_timed_suspension): with 'false' the wait is spin_k - it never yields - so outstanding requests in that mode
+    # can occupy every worker of the pool while the tasks that would post the matching operations never run.
+    ywc = [(f2, e) for f2 in [fn] + list(fn.lambdas()) for _, _, e in f2.all_events() if e.get("k") == "call" and callee_short(e) == "yield_while"]
+    if not ywc:
+        raise AnalysisBroken("trigger(): yield_while call of the yield_while handler not found")
+    for f2, e in ywc:
+        a2 = strip(e["args"][2]) if len(e.get("args") or []) > 2 else None
+        yields = a2 is None or a2.get("k") == "defaultarg" or (a2.get("k") == "lit" and a2.get("v") is True) or T(a2) in ("true", "")
+        if yields:
+            rep.ok("C20.R6", fn, "the wait for the request yields between polls (yield_while with timed suspension allowed)")
+        else:
+            rep.bad("C20.R6", fn, loc_of(e), "request-wait-spins", "the task waiting for its MPI request calls yield_while(.., %s): when that is false the wait is spin_k and never gives the worker back - "
+                    "with as many outstanding requests as workers in the pool the tasks that post the matching operations are never scheduled: the senders are never signalled and shutdown hangs" % T(a2))
 
     # ---- R5
     sp = one("start_polling")
